@@ -91,6 +91,18 @@ def run_case(contract, inputs, instance=""):
     """inputs: model-style dict (or already-native kwargs when inputs.get('__native__'))."""
     from pyvc.api import NS
     res = {"requires": {}, "ensures": {}, "raised": None, "allowed_raise": None}
+
+    def has_opaque(v):
+        if isinstance(v, dict):
+            return "__opaque__" in v or any(has_opaque(x) for x in v.values())
+        if isinstance(v, (list, tuple)):
+            return any(has_opaque(x) for x in v)
+        return False
+    if has_opaque(inputs):
+        # abstract placeholders (function-valued or library objects of the symbolic run) cannot be rebuilt natively
+        res["harness_error"] = True
+        res["raised"] = "inputs contain abstract placeholders without a native counterpart"
+        return res
     if inputs.get("__native__"):
         kwargs = {k: v for k, v in inputs.items() if k != "__native__"}
     elif contract.native is not None:
